@@ -11,5 +11,5 @@ trap 'git -C /repo worktree remove --force "$wt" 2>/dev/null; rm -rf "$wt"' EXIT
 ids="$@"; [ -n "$ids" ] || ids=$(ls seeded | grep -E "^C[0-9]{2}${suf}\$")
 for id in $ids; do
   p=${id:0:3}
-  echo "== $id: $(SEEDTEST_WT=$wt tools/seedtest.sh seeded/$id/patch.diff $p 2>&1 | tail -1)"
+  echo "== $id: $(SEEDTEST_WT=$wt tools/seedtest.sh "$PWD/seeded/$id/patch.diff" $p 2>&1 | tail -1)"
 done
